@@ -132,7 +132,11 @@ class Kit(object):
                 return _sl({"op": "di_inplace", "clear": True, "append": sorted(subset(rng, [1, 2, 3, 5, 8], 1, 3))}, slot)
             f = pick(rng, ["timestamp", "description", "arch", "disc_numbers"])
             return _sl({"op": "di_set", "field": f, "value": K2[f]}, slot)
-        if rng.random() < 0.5:
+        r = rng.random()
+        if r < 0.15:
+            # the milestone label is taken back / given: label AND final leave / enter the document together
+            return _sl({"op": "mf_set", "field": "label", "value": None if K["compose"].get("label") else pick(rng, ["RC-1.0", "Beta-2.3"])}, slot)
+        if r < 0.5:
             return _sl({"op": "mf_set", "field": "respin", "value": rng.randint(3, 9)}, slot)
         variants = sorted(set(a["variant"] for a in K["adds"])) or ["Server"]
         arches = sorted(set(a["arch"] for a in K["adds"])) or ["x86_64"]
